@@ -206,6 +206,9 @@ func (m *TlvModel) GenReadFrom(buf *bytes.Buffer) error {
 							return nil, enc.ErrUnrecognizedField{TypeNum: typ}
 						}
 						handled = true
+						{{- if (eq $.Model.Ordered true)}}
+						progress-- // an unrecognized element does not take the place of a field
+						{{- end}}
 						err = reader.Skip(int(l))
 					}
 					if err == nil && !handled {
